@@ -116,6 +116,55 @@ def c03_cli(ctx, res, entries, limit):
                 res.violate("C03/cli/stdout", "`lace run --minimal` prints different program output than the reference machine", detail)
 
 
+_SGR = re.compile(rb"\x1b\[[0-9;]*m")
+
+
+def c03_environment(ctx, res, entries):
+    """The same programs under other environments (no NO_COLOR, colours forced, a dumb or missing TERM,
+    a narrow COLUMNS, another locale, an empty environment) and other spellings of the file's path
+    (absolute, through a symlinked directory, `./`, a name with blanks and several dots): what the
+    program prints and how the run ends is the machine's business, not the environment's."""
+    d = _dir(ctx, "c03_env")
+    sub = os.path.join(d, "dir with blanks")
+    os.makedirs(sub, exist_ok=True)
+    link = os.path.join(d, "link")
+    if not os.path.islink(link):
+        os.symlink(sub, link)
+    envs = [{"NO_COLOR": None}, {"NO_COLOR": None, "CLICOLOR_FORCE": "1"}, {"NO_COLOR": None, "TERM": "dumb"}, {"NO_COLOR": None, "TERM": None},
+            {"COLUMNS": "20", "LINES": "5"}, {"LC_ALL": "tr_TR.UTF-8", "LANG": "tr_TR.UTF-8"}, {"LC_ALL": "C"}, {"NO_COLOR": None, "FORCE_COLOR": "3", "COLORTERM": "truecolor"}]
+    picks = [ix for ix in range(len(entries)) if entries[ix]["output"]][:10]
+    jobs = []
+    for n, ix in enumerate(picks):
+        e = entries[ix]
+        name = "my prog.v%d.final.asm" % ix
+        _write(os.path.join(sub, name), e["source"])
+        jobs.append((ix, envs[n % len(envs)], os.path.join("dir with blanks", name), d))
+        jobs.append((ix, envs[(n + 3) % len(envs)], os.path.join(link, name), d))          # absolute, through the symlink
+        jobs.append((ix, {}, "./" + name, sub))
+        jobs.append((ix, envs[(n + 5) % len(envs)], os.path.join("..", "link", ".", name), sub))
+
+    def one(job):
+        ix, env, path, cwd = job
+        e = entries[ix]
+        return job, lace(ctx, ["run", path, "--minimal"] + feat(e), stdin=bytes(e["input"]), cwd=cwd, env=env, timeout=60)
+    for (ix, env, path, cwd), r in pmap(one, jobs):
+        e = entries[ix]
+        res.evaluations += 1
+        res.cls("l2:run_under_another_environment_or_path")
+        detail = dict(r.brief(), source=e["source"], input=e["input"], environment={k: v for k, v in env.items()}, path=path, reference=e["ref"])
+        if r.rc is None or r.crashed:
+            res.violate("C03/cli/crash", "`lace run` crashed or hung (exit %s)" % r.rc, detail)
+            continue
+        body, halted = program_output(_SGR.sub(b"", r.out))
+        ref_out = e["output"].encode("utf-8")
+        if r.rc != e["ref"]["exit"]:
+            res.violate("C03/cli/exit-status-depends-on-environment", "`lace run %s` exit status %s, reference %s" % (path, r.rc, e["ref"]["exit"]), detail)
+        elif body.rstrip(b" \n") != ref_out.rstrip(b" \n"):
+            detail["program_output_seen"] = body.decode("utf-8", "replace")[-400:]
+            res.violate("C03/cli/stdout-depends-on-environment", "`lace run %s` prints different program output than the reference machine under environment %s" % (path, env), detail)
+    res.require(["l2:run_under_another_environment_or_path"], "L2")
+
+
 def c03_escape_output(ctx, res):
     """Programs whose own output contains ESC (x1B). How the minimal mode renders the ESC byte itself is
     an open point (the mode strips colour sequences from what it prints, one write at a time, and the
